@@ -161,80 +161,7 @@ def check(ctx):
     if len(upd) != 1:
         raise AnalysisError("update thread target not resolved")
     upd = upd[0]
-    g = CFG(upd, may_raise=lambda n: False)
-    waits = [c for c in upd.own_calls() if isinstance(c.func, ast.Attribute) and c.func.attr == "wait"]
-    renders = [c for c in upd.own_calls() if any(x.name == "_do_render" for x in m.callee_funcs(upd, c))]
-    outs = [c for c in upd.own_calls() if isinstance(c.func, ast.Attribute) and c.func.attr == "_output"]
-    observes = [c for c in upd.own_calls() if isinstance(c.func, ast.Attribute) and c.func.attr in ("wait", "is_set")
-                and "done" in norm(c.func.value)]
-    ok = len(waits) >= 1 and len(renders) >= 1
-    ctx.ob("C20.R2", f"{upd.short}/shape", ok, loc(upd), "one done-wait and one render step per iteration" if ok else "update loop shape changed")
-    if ok:
-        rn_ = set()
-        for r_ in renders:
-            rn_ |= set(g.of_stmt_containing(r_, upd.module))
-        for oc in observes:
-            for on_ in g.of_stmt_containing(oc, upd.module):
-                okp = g.must_pass(on_, rn_, exits={g.exit, g.raise_exit})
-                p = "" if okp else g.fmt_path(g.path(on_, {g.exit}, avoid=rn_))
-                ctx.ob("C20.R2", f"{upd.short}/render-after-observing-done", okp, loc(upd, oc),
-                       "every path from an observation of the done event to the thread's exit passes the render step" if okp else
-                       "the thread can observe the done event and exit without rendering again: if the run ends while a render/"
-                       "output is in flight, the last display never shows the final counts", norm(oc), p)
-        wn = [x for w_ in waits for x in g.of(stmt_of(upd.module, w_))]
-        rn = set()
-        for r_ in renders:
-            rn |= set(g.of(stmt_of(upd.module, r_)))
-        okp = all(g.must_pass(w, rn, exits={g.exit, g.raise_exit}) for w in wn)
-        p = "" if okp else g.fmt_path(g.path(wn[0], {g.exit}, avoid=rn))
-        ctx.ob("C20.R2", f"{upd.short}/render-after-done", okp, loc(upd, waits[0]),
-               "every path from the done-wait to the thread's exit passes the render step (the final state is rendered)" if okp else
-               "the loop can exit after the done-wait without rendering: the last display does not show the final counts",
-               norm(stmt_of(upd.module, waits[0]))[:100], p)
-        # render under the lock, output after
-        locks = lock_withs(m, upd)
-        inlock = all(any(inside(upd.module, r_, w) for w, _ in locks) for r_ in renders)
-        ctx.ob("C20.R2", f"{upd.short}/render-under-lock", inlock, loc(upd, renders[0]), "render step runs under the observer lock" if inlock else
-               "render step runs without the lock that notifications take")
-        for o in outs:
-            ol = any(inside(upd.module, o, w) for w, _ in locks)
-            on = set(g.of(stmt_of(upd.module, o)))
-            after = all(g.dominates(rn, x) for x in on)
-            ctx.ob("C20.R2", f"{upd.short}/output-after-render", after and not ol, loc(upd, o),
-                   "output happens after the render step, outside the lock" if after and not ol else "output misplaced", norm(o))
-    dr = spo.methods.get("_do_render")
-    if dr is None:
-        raise AnalysisError("_do_render not found")
-    # the render call runs exactly under `self._stale or <interval elapsed>` (either spelling of the guard, possibly through a
-    # named condition), the flag is cleared before it on every path, and its value is what is returned
-    from ..astq import expand_locals
-    from . import engine as E_
-    rc = [n for n in dr.own_calls() if norm(n.func) == "self._render"]
-    ok = len(rc) == 1
-    if ok:
-        conds = E_.path_condition(dr.module, stmt_of(dr.module, rc[0]), dr.node)
-        ok = len(conds) == 1
-        if ok:
-            t_, pol_ = conds[0]
-            t_ = expand_locals(dr, t_)
-            t_, pol_ = E_._positive(t_, pol_)
-            ok = pol_ and isinstance(t_, ast.BoolOp) and isinstance(t_.op, ast.Or) and any(norm(v_) == "self._stale" for v_ in t_.values)
-    ctx.ob("C20.R2", f"{dr.short}/renders-when-stale", ok, loc(dr), "renders whenever the stale flag is set" if ok else
-           "render is not triggered by the stale flag alone")
-    if rc:
-        gd = CFG(dr, may_raise=lambda n_: False)
-        clr = [n for n in dr.own_nodes() if isinstance(n, ast.Assign) and norm(n.targets[0]) == "self._stale" and getattr(n.value, "value", 1) is False]
-        cn = set()
-        for c_ in clr:
-            cn |= set(gd.of(c_))
-        ok = bool(clr) and all(gd.dominates(cn, x_) for x_ in gd.of_stmt_containing(rc[0], dr.module))
-        ctx.ob("C20.R2", f"{dr.short}/clears-flag-before-render", ok, loc(dr), "stale flag cleared (under the caller's lock) before rendering" if ok else
-               "stale flag is not cleared before rendering: a notification during rendering can be lost")
-        rst = stmt_of(dr.module, rc[0])
-        rvar = rst.targets[0].id if isinstance(rst, ast.Assign) and isinstance(rst.targets[0], ast.Name) else None
-        rets = [n for n in dr.own_nodes() if isinstance(n, ast.Return) and n.value is not None and not (isinstance(n.value, ast.Constant) and n.value.value is None)]
-        ok = len(rets) == 1 and (is_name(rets[0].value, rvar) if rvar else rets[0].value is rc[0])
-        ctx.ob("C20.R2", f"{dr.short}/returns-render", ok, loc(dr), "returns the rendered value")
+    ctx.run(lambda c_: rule_update_thread(c_, "C20.R2", spo, upd))
     # ---------------------------------------------------------------- R3
     ex = spo.methods["__exit__"]
     calls = ex.own_calls()
@@ -338,6 +265,148 @@ def check(ctx):
         ok = want_if in cb_ and cst(f, "scope_state.running -= 1")[0] in cb_ and cb_.index(want_if) > cb_.index(cst(f, "scope_state.running -= 1")[0])
         ctx.ob("C20.R5", f"{f.short}/leaves-running-set", ok, loc(f), "leaves the running set exactly when its running count reaches 0" if ok else
                "running-set membership does not follow running > 0")
+
+
+def rule_update_thread(ctx, rid, spo, upd):
+    """The update thread, evaluated against every placement of the end of the run.
+
+    The observer object is built by interpreting SimpleProgressObserver.__init__; lock, done event, clock, _render and _output
+    are abstract objects that record what happens.  The update-thread function is then interpreted once per *moment* k: at the
+    k-th interaction of the thread with its environment (clock reading, wait / is_set, taking or releasing the lock, render,
+    output) the last notification arrives (stale flag set) and the done event is set - deferred to the release of the lock
+    when the thread holds it, because notifications take the same lock.  The clock does not advance, so only the stale flag
+    can make a render due.  Required for every k: the thread terminates; after that moment it still renders (under the lock)
+    and outputs that very rendering - i.e. the last display shows the final state; every render happens
+    under the lock; the thread itself writes the stale flag only while holding the lock."""
+    from ..absval import AbsRaise, Interp, Obj, Stub
+    m = ctx.model
+    init = spo.methods.get("__init__")
+    if init is None:
+        raise AnalysisError("SimpleProgressObserver.__init__ not found")
+    K = 24
+    problems = {}
+    n_runs = 0
+    terminated_without_moment = False
+    for k in range(1, K + 1):
+        st = {"n": 0, "held": False, "fired": None, "pending": False, "set": False, "waits": 0}
+        events = []
+
+        class Attrs(dict):
+            def __setitem__(self, key, val):
+                if key == "_stale" and st.get("live") and not st["held"] and not st.get("firing"):
+                    events.append(("flag-write-unlocked", val))
+                dict.__setitem__(self, key, val)
+        me = Obj(spo, {}, name="observer")
+        me.attrs = Attrs()
+
+        def fire():
+            st["firing"] = True
+            me.attrs["_stale"] = True
+            st["firing"] = False
+            st["set"] = True
+            st["fired"] = len(events)
+            st["pending"] = False
+
+        def tick():
+            st["n"] += 1
+            if st["n"] == k and st["fired"] is None:
+                if st["held"]:
+                    st["pending"] = True
+                else:
+                    fire()
+
+        def enter():
+            tick()
+            if st["held"]:
+                raise AnalysisError("update thread takes the observer lock twice")
+            st["held"] = True
+
+        def leave():
+            st["held"] = False
+            if st["pending"]:
+                fire()
+            tick()
+
+        def wait(timeout=None):
+            st["waits"] += 1
+            if st["waits"] > 60:
+                raise AbsRaise("NO-TERMINATION")
+            tick()
+            return st["set"]
+
+        def is_set():
+            tick()
+            return st["set"]
+
+        def render(*a, **kw):
+            tick()
+            events.append(("render", st["held"], me.attrs.get("_stale"), len(events)))
+            return ("rendering", len(events) - 1)
+
+        def output(v):
+            tick()
+            events.append(("output", st["held"], v))
+
+        def clock():
+            tick()
+            return 1000.0
+        lock = Obj(None, {"__enter__": Stub("__enter__", enter), "__exit__": Stub("__exit__", leave),
+                          "acquire": Stub("acquire", lambda *a, **kw: enter() or True), "release": Stub("release", leave)}, name="lock")
+        event = Obj(None, {"wait": Stub("wait", wait), "is_set": Stub("is_set", is_set), "set": Stub("set", lambda: None)}, name="done")
+        state = Obj(None, {"update_weighted_elapsed": Stub("uwe", lambda: None), "section_scope_mapping": {}}, name="state")
+        interp = Interp(m, stubs={"State": Stub("State", lambda *a, **kw: state)},
+                        ext={"threading.Lock": lambda: lock, "threading.RLock": lambda: lock, "threading.Event": lambda: event,
+                             "time.time": clock, "time.monotonic": clock, "threading.Thread": lambda *a, **kw: Obj(None, {}, "thread")})
+        try:
+            kw = {p_: v_ for p_, v_ in (("initial_update_delay", 0.5), ("min_update_interval", 1.0), ("max_update_interval", 10.0))
+                  if p_ in init.params}
+            missing = [p_ for p_ in init.params[1:] if p_ not in kw and p_ not in init.defaults]
+            if missing:
+                raise AnalysisError(f"unexpected parameters of {init.qualname}: {missing}")
+            interp.call_func(init, None, [], kw, bound_self=me)
+        except AbsRaise as e:
+            raise AnalysisError(f"abstract evaluation of {init.qualname} raised {e.value!r}")
+        me.attrs["_render"] = Stub("_render", render)
+        me.attrs["_output"] = Stub("_output", output)
+        st["n"] = 0
+        st["live"] = True
+        why = None
+        try:
+            interp.call_func(upd, None, [], {}, bound_self=me)
+        except AbsRaise as e:
+            why = ("the update thread does not terminate after the done event is set" if e.value == "NO-TERMINATION" else
+                   f"the update thread dies with {e.value!r}")
+        n_runs += 1
+        if why is None and st["fired"] is None:
+            # the thread ended before moment k although the run never ended
+            terminated_without_moment = True
+            why = "the update thread ends although the done event was never set"
+        if why is None:
+            after = events[st["fired"]:]
+            rs = [e for e in after if e[0] == "render"]
+            if not rs:
+                why = ("no render after the last notification and the end of the run: the last display does not show the final counts")
+            else:
+                last = rs[-1]
+                outs = [e for e in after if e[0] == "output" and e[2] == ("rendering", last[3])]
+                if not outs:
+                    why = "the rendering of the final state is never output"
+            bad_r = [e for e in events if e[0] == "render" and not e[1]]
+            bad_w = [e for e in events if e[0] == "flag-write-unlocked"]
+            if why is None and bad_r:
+                why = "a render step runs without the lock that notifications take"
+            if why is None and bad_w:
+                why = "the update thread writes the stale flag without holding the lock: a concurrent notification's flag can be overwritten and its change never rendered"
+        if why:
+            problems.setdefault(why, []).append(k)
+        if terminated_without_moment:
+            break
+    ok = not problems
+    desc = "; ".join(f"{w} (end of run at interaction {ks[0]}{'' if len(ks) == 1 else f' and {len(ks) - 1} other placements'})" for w, ks in problems.items())
+    ctx.ob(rid, f"{upd.short}/final-state-rendered", ok, loc(upd),
+           f"evaluated for the end of the run placed at each of the first {K} interactions of the thread: it terminates, renders under the "
+           f"lock after the last notification and outputs that rendering" if ok else desc)
+    ctx.floor(rid, "placements of the end of the run evaluated", n_runs, 1 if not ok else K)
 
 
 def path_guarded(f, call, root):
